@@ -102,7 +102,7 @@ Proof. split; vm_compute; reflexivity. Qed.
 
 Definition w_release := [LNewCache; LNewCache; LNewCache; LNewCache; LRelease 1; LRelease 3; LRelCollect; LRelRemove].
 Example C18_release_buckets_v0_refuted :
-  exists st, run_v (mkV true true false true true) (init 0 0 68) w_release = Some st /\
+  exists st, run_v (mkV true true false true true true) (init 0 0 68) w_release = Some st /\
              is_released (caches st) 2 = false /\ ~ In 2%nat (buckets st).
 Proof. eexists. split; [vm_compute; reflexivity|]. split; [reflexivity|]. simpl. intuition discriminate. Qed.
 
@@ -112,7 +112,7 @@ Definition w_recover := [LNewCache; LSpawn 0 7 (OVal 1 100); LStep 0; LStep 0; L
   LCleanBegin; LCleanCache 0; LSpawn 0 1 (OVal 2 50); LStep 2; LStep 2; LStep 2; LStep 1].
 Example C18_recover_v0_refuted :
   race_free (init 1 0 68) w_recover = true /\
-  (exists st, run_v (mkV false true true true true) (init 1 0 68) w_recover = Some st /\ acct st = 118 /\ live st = 0) /\
+  (exists st, run_v (mkV false true true true true true) (init 1 0 68) w_recover = Some st /\ acct st = 118 /\ live st = 0) /\
   (exists st, run (init 1 0 68) w_recover = Some st /\ acct st = 118 /\ live st = 118).
 Proof. split; [vm_compute; reflexivity|]. split; eexists; (split; [vm_compute; reflexivity|split; vm_compute; reflexivity]). Qed.
 
@@ -122,7 +122,7 @@ Definition w_save := [LNewCache; LSpawn 0 7 (OVal 1 100); LStep 0; LStep 0; LSte
   LRotate; LSpawn 0 7 (OVal 3 100); LStep 2; LGcGens; LStep 1; LStep 1].
 Example C18_save_v0_refuted :
   race_free (init 2000 100 68) w_save = true /\
-  (exists st, run_v (mkV true false true true true) (init 2000 100 68) w_save = Some st /\ acct st = 168 /\ live st = 286) /\
+  (exists st, run_v (mkV true false true true true true) (init 2000 100 68) w_save = Some st /\ acct st = 168 /\ live st = 286) /\
   (exists st, run (init 2000 100 68) w_save = Some st /\ acct st = 286 /\ live st = 286).
 Proof. split; [vm_compute; reflexivity|]. split; eexists; (split; [vm_compute; reflexivity|split; vm_compute; reflexivity]). Qed.
 
@@ -142,7 +142,7 @@ Definition w_gc_pending := [LNewCache; LSpawn 0 2 (OVal 1 200); LStep 0; LStep 0
   LStep 1; LStep 1; LRotate; LSpawn 0 2 (OVal 3 1); LStep 2; LGcGens; LStep 1].
 Example C18_save_add_after_unlock_v0_refuted :
   race_free (init 2000 100 68) w_gc_pending = true /\
-  (exists st, run_v (mkV true true true false true) (init 2000 100 68) w_gc_pending = Some st /\ acct st = 268 /\ live st = 386) /\
+  (exists st, run_v (mkV true true true false true true) (init 2000 100 68) w_gc_pending = Some st /\ acct st = 268 /\ live st = 386) /\
   (exists st, run (init 2000 100 68) w_gc_pending = Some st /\ acct st = 386 /\ live st = 386).
 Proof. split; [vm_compute; reflexivity|]. split; eexists; (split; [vm_compute; reflexivity|split; vm_compute; reflexivity]). Qed.
 
@@ -182,10 +182,30 @@ Definition w_rebuild := LNewCache :: fill_labels 200 ++
   [LRotate; LSpawn 0 1 (OVal 999 50); LStep 200; LCleanBegin; LCleanCache 0; LSpawn 0 1 (OVal 998 50); LStep 201; LStep 200; LStep 200].
 Example C18_rebuild_skips_loading_v0_refuted :
   race_free (init 13500 675 68) w_rebuild = true /\
-  (exists st, run_v (mkV true true true true false) (init 13500 675 68) w_rebuild = Some st /\ nrec st = 1 /\
+  (exists st, run_v (mkV true true true true true false) (init 13500 675 68) w_rebuild = Some st /\ nrec st = 1 /\
               thread_pc st 201 = Some (PLoad 201) /\ acct st = 118 /\ live st = 0) /\
   (exists st, run (init 13500 675 68) w_rebuild = Some st /\ nrec st = 1 /\
               thread_pc st 201 = Some (PWait 200) /\ acct st = 118 /\ live st = 118).
+Proof.
+  split; [vm_compute; reflexivity|].
+  split; eexists; (split; [vm_compute; reflexivity|repeat split; vm_compute; reflexivity]).
+Qed.
+
+(* a seeded regression (never in /repo's history): Cleaner.rotate switching the caches over a snapshot BEFORE taking
+   the lock, lastGen / generations updated afterwards (two LRotate labels = the two halves): a NewCache in between
+   is registered on the old generation and missed by the rotation; after the next cleaning pass has dropped that
+   generation, what the cache loads is accounted outside the cleaner's list: accounted 368, live 836, and
+   Cleaner.Cleanup does not start (ret [0]) although 836 > limit 500. With the code as it is (one critical
+   section; the second LRotate is a no-op) both caches follow the rotation and the pass starts. *)
+Definition w_rotate := [LNewCache; LSpawn 0 1 (OVal 1 200); LStep 0; LStep 0; LStep 0; LRotate; LNewCache; LRotate;
+  LSpawn 0 2 (OVal 2 300); LStep 1; LStep 1; LStep 1; LCleanBegin; LCleanCache 0; LCleanCache 1;
+  LSpawn 1 1 (OVal 3 400); LStep 2; LStep 2; LStep 2; LCleanBegin].
+Example C18_rotate_split_v0_refuted :
+  race_free (init 500 25 68) w_rotate = true /\
+  (exists st, run_v (mkV true true true true false true) (init 500 25 68) w_rotate = Some st /\
+              map ccur (caches st) = [1; 0]%nat /\ lastgen st = 1%nat /\ acct st = 368 /\ live st = 836 /\ ret st = [0]) /\
+  (exists st, run (init 500 25 68) w_rotate = Some st /\
+              map ccur (caches st) = [2; 2]%nat /\ lastgen st = 2%nat /\ hd 0 (ret st) = 1).
 Proof.
   split; [vm_compute; reflexivity|].
   split; eexists; (split; [vm_compute; reflexivity|repeat split; vm_compute; reflexivity]).
